@@ -371,7 +371,12 @@ pub fn random_style(rng: &mut Rng, max_width: f64) -> StrokeStyle {
         cap: *rng.pick(&[LineCap::Butt, LineCap::Round, LineCap::Square]),
         join: *rng.pick(&[LineJoin::Miter, LineJoin::Round, LineJoin::Bevel]),
         miter_limit: *rng.pick(&[0.5f32, 1., 1.5, 2., 4., 10.]),
-        dash_array: if rng.chance(0.25) { (0..1 + rng.below(4)).map(|_| rng.range(0.5, 6.) as f32).collect() } else { Vec::new() },
+        // (one dashed style in ten carries an array that disables the stroke: a total that is not positive, or NaN)
+        dash_array: if rng.chance(0.25) {
+            if rng.chance(0.1) { rng.pick(&[vec![0.0f32], vec![-1.], vec![5., -10.], vec![f32::NAN, 4.], vec![0., 0.]]).clone() } else { (0..1 + rng.below(4)).map(|_| rng.range(0.5, 6.) as f32).collect() }
+        } else {
+            Vec::new()
+        },
         dash_offset: if rng.chance(0.5) { 0. } else { rng.range(-10., 10.) as f32 },
     }
 }
